@@ -73,7 +73,8 @@ PROPS = {
     'C19': {
         'lean_targets': ['Shisui.Props.C19', 'Shisui.Inst.C19'],
         'min_obligations': 7,
-        'runs': [{'name': 'versions', 'harness': ['C19'], 'driver': ['C19']}],
+        'runs': [{'name': 'versions', 'harness': ['C19'], 'driver': ['C19']},
+                 {'name': 'transfer', 'harness': ['transfer', 'framing'], 'driver': ['C08'], 'timeout': 1200}],
         'rule': 'findBiggestSameNumber on ALL pairs of lists of length 0..3 over {0,1,2} (1600 pairs, exhaustive for that domain) and random '
                 'lists over 0..255; getOrStoreHighestVersion call histories of 1..3 calls on a fresh cache for every own-list x peer '
                 'advertisement (every short list, missing entry, undecodable entry) and random ones; non-trivial = both lists non-empty; '
@@ -89,7 +90,8 @@ PROPS = {
         'lean_targets': ['Shisui.Props.C07', 'Shisui.Inst.C07'],
         'min_obligations': 4,
         'runs': [{'name': 'table', 'harness': ['table'], 'driver': ['table', 'C07']},
-                 {'name': 'tableconc', 'harness': ['tableconc'], 'driver': ['table', 'C07']}],
+                 {'name': 'tableconc', 'harness': ['tableconc'], 'driver': ['table', 'C07']},
+                 {'name': 'table-metrics', 'harness': ['table'], 'driver': ['table', 'C07'], 'env': {'VERIF_METRICS': '1'}}],
         'rule': 'operation sequences (add found/inbound/forced-live, delete, revalidation timer, revalidation answers delivered in any order (dead / alive / alive with a new record), lookup feedback incl. runs of consecutive failures) against the real portalwire.Table with a fake transport and a simulated clock; node ids from pools of 34/90 keys so that buckets fill and ids repeat; addresses from three public /24s (one crowded in every fourth sequence), LAN, loopback and missing; sequence numbers 1..3; after every operation the full snapshot (entries with record/credit/verified flag/list, replacement order, per-bucket and table-wide /24 counters, fast/slow lists, active requests) must equal the model; non-trivial = the table held at least 8 entries; distinct = distinct operation lines among those'
                 ' A quarter of the records of known ids keep the address of the previous record and move only the port or only the sequence number.',
         'trusted': ['enode.LogDist, netutil.DistinctNetSet/AddrIsLAN (re-modelled; compared on every snapshot)', 'operations are applied serially through the same handlers the table loop calls'],
@@ -131,7 +133,9 @@ PROPS = {
         'lean_targets': ['Shisui.Props.C11', 'Shisui.Inst.C08'],
         'min_obligations': 5,
         'runs': [{'name': 'findnodes', 'harness': ['findnodes'], 'driver': ['C11']},
-                 {'name': 'nodesresp', 'harness': ['nodesresp'], 'driver': ['C11']}],
+                 {'name': 'nodesresp', 'harness': ['nodesresp'], 'driver': ['C11']},
+                 {'name': 'findnodes-metrics', 'harness': ['findnodes'], 'driver': ['C11'], 'env': {'VERIF_METRICS': '1'}},
+                 {'name': 'nodesresp-metrics', 'harness': ['nodesresp'], 'driver': ['C11'], 'env': {'VERIF_METRICS': '1'}}],
         'rule': 'responder: real handleFindNodes on a started node whose table holds 60..260 crafted signed records (all bucket distances '
                 '240..256 by chance of the keys, 1 in 4 unverified, address classes public/LAN/loopback/special-purpose, record sizes up to the '
                 '300-byte limit), askers on LAN/loopback/public addresses, distance lists: empty, all 257 values shuffled, 1..6 values from '
@@ -149,7 +153,8 @@ PROPS = {
         'lean_targets': ['Shisui.Props.C08', 'Shisui.Inst.C08'],
         'min_obligations': 4,
         'runs': [{'name': 'findcontent', 'harness': ['findcontent'], 'driver': ['C08']},
-                 {'name': 'transfer', 'harness': ['transfer'], 'driver': ['C08'], 'timeout': 1200}],
+                 {'name': 'transfer', 'harness': ['transfer'], 'driver': ['C08'], 'timeout': 1200},
+                 {'name': 'findcontent-metrics', 'harness': ['findcontent'], 'driver': ['C08'], 'env': {'VERIF_METRICS': '1'}}],
         'rule': 'responder: real handleFindContent on a started node (table of 0..260 crafted records up to the 300-byte limit), content absent or '
                 'stored with sizes {0,1,2,500,1000,1173..1178,1300,5000}, asker = one of the 32 closest, another table node, or a stranger; reply kind, '
                 'inline bytes and record list must equal the model given the real sort order, and the sort itself is checked against the table '
@@ -166,7 +171,9 @@ PROPS = {
         'lean_targets': ['Shisui.Props.C09', 'Shisui.Inst.C09'],
         'min_obligations': 7,
         'runs': [{'name': 'offer', 'harness': ['offer'], 'driver': ['C09']},
-                 {'name': 'offer2', 'harness': ['offer2'], 'driver': ['C09'], 'timeout': 1200}],
+                 {'name': 'offer2', 'harness': ['offer2'], 'driver': ['C09'], 'timeout': 1200},
+                 {'name': 'offer-metrics', 'harness': ['offer'], 'driver': ['C09'], 'env': {'VERIF_METRICS': '1'}},
+                 {'name': 'offer2-metrics', 'harness': ['offer2'], 'driver': ['C09'], 'timeout': 1200, 'env': {'VERIF_METRICS': '1'}}],
         'rule': 'real handleOffer on started nodes: wire version 0/1 per case, 0..6 (1 in 25: 60..64) fresh keys, each in or out of a 2^255 radius, '
                 'stored or not, marked in flight or not; a node with no transfer slots, one with plenty, one with a full validation queue; an '
                 'unsupported version; the decoded ACCEPT (verdict list + connection id present) must equal the model; end to end: offers of 1..6 '
@@ -184,7 +191,8 @@ PROPS = {
         'lean_targets': ['Shisui.Props.C20', 'Shisui.Inst.C20'],
         'min_obligations': 3,
         'runs': [{'name': 'gossip', 'harness': ['gossip'], 'driver': ['C20']},
-                 {'name': 'radius', 'harness': ['radius'], 'driver': ['C20']}],
+                 {'name': 'radius', 'harness': ['radius'], 'driver': ['C20']},
+                 {'name': 'gossip-metrics', 'harness': ['gossip'], 'driver': ['C20'], 'env': {'VERIF_METRICS': '1'}}],
         'rule': 'real GossipAndReturnPeers on started nodes without offer workers (queued offers observable), tables of 0/3/20/62/140/272 nodes, the '
                 'radius cache rewritten per call with densities from "nobody known" to "everybody covers", source absent / a table node / a stranger; '
                 'the returned peers must satisfy the Allowed relation and equal the number of queued offers, the source must not be queued; radius '
@@ -201,7 +209,8 @@ PROPS = {
     'C16': {
         'lean_targets': ['Shisui.Props.C16', 'Shisui.Inst.C16'],
         'min_obligations': 3,
-        'runs': [{'name': 'permits', 'harness': ['permits'], 'driver': ['C16'], 'timeout': 1200}],
+        'runs': [{'name': 'permits', 'harness': ['permits'], 'driver': ['C16'], 'timeout': 1200},
+                 {'name': 'permits-metrics', 'harness': ['permits'], 'driver': ['C16'], 'timeout': 1200, 'env': {'VERIF_METRICS': '1'}}],
         'rule': 'slot controller: random acquire-inbound / acquire-outbound / release / repeated-release sequences at limits 0..5 (step equality of every '
                 'grant and of the slots obtainable afterwards); real processOffer with a real outbound permit against scripted replies (empty, wrong code, '
                 'undecodable, wrong count all declined, wrong count with an accepting verdict, short count accepting, all declined, truncated) for both '
